@@ -1,0 +1,18 @@
+//go:build verif
+
+package pubsub
+
+import "github.com/libp2p/go-libp2p/core/peer"
+
+// Exports for the C16 check (blacklisting). Add-only, read-only accessors and
+// thin wrappers; nothing here changes what the library does.
+
+// VerifDone stops the sweeper goroutine of the time cache behind a
+// TimeCachedBlacklist. The library itself never stops it (DESIGN D15); a
+// testing/synctest bubble cannot end while that goroutine lives.
+func (b *TimeCachedBlacklist) VerifDone() { b.tc.Done() }
+
+// VerifPeerQueue returns the outbound queue currently registered for pid, or
+// nil. It must be called on the event-loop goroutine (inside VerifEval or a
+// RawTracer callback).
+func (p *PubSub) VerifPeerQueue(pid peer.ID) *VerifRPCQueue { return p.peers[pid] }
